@@ -2,8 +2,10 @@
 mod conc;
 mod ctx;
 mod enumr;
+mod expect;
 mod files;
 mod iters;
+mod lib_mode;
 mod model;
 mod out;
 mod sched;
@@ -35,7 +37,9 @@ fn main() {
     if args.len() < 3 {
         usage();
     }
-    ctx::install_panic_hook();
+    if args[1] != "lib" {
+        ctx::install_panic_hook();
+    }
     let scratch = scratch_root();
     let code = real_main(&args, &scratch);
     let _ = std::fs::remove_dir_all(&scratch);
@@ -44,6 +48,8 @@ fn main() {
 
 fn real_main(args: &[String], scratch: &str) -> i32 {
     match args[1].as_str() {
+        "lib" => lib_mode::run(&args[2..]),
+        "expect" => expect::run(&args[2], &args[3]),
         "run" => {
             if args.len() < 7 {
                 usage();
@@ -103,7 +109,7 @@ fn real_main(args: &[String], scratch: &str) -> i32 {
                 "C05sched" | "C14sched" | "C14lattice" | "C07sched" => conc::replay(&mut ctx, &args[2..]),
                 "C10s2m" | "C10m2s" | "C10s2m-free" | "C10m2s-free" | "C10big" => conc::replay_min(&mut ctx, &args[2..]),
                 "C05cfg" => conc::replay_c05cfg(&mut ctx, &args[2..]),
-                "C06" | "C06long" | "C07" | "C08" | "C08one" | "C08direct" => files::replay(&mut ctx, &args[2..]),
+                "C06" | "C06long" | "C07" | "C08" | "C08one" | "C08bin" | "C08direct" => files::replay(&mut ctx, &args[2..]),
                 other => {
                     eprintln!("unknown case kind {}", other);
                     return 2;
